@@ -724,9 +724,15 @@ func To5(data []byte) []byte {
 // (the checksum is computed over the lower-case form, as BIP-173 requires);
 // upper selects the all-upper-case rendering.
 func Bech32EncodeGroups(hrpLower string, groups []byte, upper bool) string {
+	return Bech32EncodeGroupsConst(hrpLower, groups, upper, 1)
+}
+
+// Bech32EncodeGroupsConst uses an explicit checksum constant (1 = Bech32,
+// 0x2bc830a3 = Bech32m).
+func Bech32EncodeGroupsConst(hrpLower string, groups []byte, upper bool, constant uint32) string {
 	v := append(bechHrpExpand(hrpLower), groups...)
 	v = append(v, 0, 0, 0, 0, 0, 0)
-	mod := bechPolymod(v) ^ 1
+	mod := bechPolymod(v) ^ constant
 	var sb strings.Builder
 	sb.WriteString(hrpLower + "1")
 	for _, g := range groups {
